@@ -45,13 +45,24 @@ def to_steps(s):
     return {"nodes": s["nodes"], "steps": steps, "family": fam}
 
 
-def network_stage(v, w, thorough, replay):
-    """Second engine: the composed network model (specs/network) -- message bag, any delivery order, loss, expiry."""
+def network_stage(v, w, thorough, replay, prefix="C09_", light=False):
+    """Second engine: the composed network model (specs/network) -- message bag, any delivery order, loss, expiry.
+    prefix: the clauses that are verdicts of the calling property (C09_* for C09, C08_* when called from C08's check);
+    light: no exhaustive / liveness runs, fewer simulated behaviours (the caller only wants the node-level clause)."""
     scn_path = os.path.join(w, "net-scenarios.ndjson")
     if replay:
         write_ndjson(scn_path, [replay["scenario"]])
+    elif light:
+        scns = []
+        for cfg, num in (("MCNetwork_sim.cfg", 120 if thorough else 15), ("MCNetwork_sim2.cfg", 120 if thorough else 15), ("MCNetwork_sim_serve.cfg", 120 if thorough else 10)):
+            sim = tlc("network", "MCNetwork", cfg, w, workers=1, simulate="num=%d" % num, depth=90, coverage=False, timeout=3000,
+                      extra=["-seed", str(seed())])
+            if sim.violated:
+                raise ToolError("network model: %s violated in simulation (%s)" % (sim.violated, cfg))
+            scns += scenarios_from(sim)
+        write_ndjson(scn_path, scns)
     else:
-        for cfg in ["MCNetwork.cfg", "MCNetwork_txs.cfg", "MCNetwork_pad.cfg"]:
+        for cfg in ["MCNetwork.cfg", "MCNetwork_txs.cfg", "MCNetwork_pad.cfg", "MCNetwork_serve.cfg"]:
             mc = tlc("network", "MCNetwork", cfg, w, workers=8, timeout=3000)
             v.add_model(mc)
             if mc.violated:
@@ -71,7 +82,8 @@ def network_stage(v, w, thorough, replay):
         if weak.violated != "EventuallyAgree":
             raise ToolError("negative control of the network liveness check did not fail (got %s)" % weak.violated)
         scns = []
-        for cfg, num in (("MCNetwork_sim.cfg", 400 if thorough else 45), ("MCNetwork_sim_pad.cfg", 150 if thorough else 15), ("MCNetwork_sim2.cfg", 300 if thorough else 30)):
+        for cfg, num in (("MCNetwork_sim.cfg", 400 if thorough else 35), ("MCNetwork_sim_pad.cfg", 150 if thorough else 10), ("MCNetwork_sim2.cfg", 300 if thorough else 25),
+                         ("MCNetwork_sim_serve.cfg", 300 if thorough else 20)):
             sim = tlc("network", "MCNetwork", cfg, w, workers=1, simulate="num=%d" % num, depth=90, coverage=False, timeout=3000,
                       extra=["-seed", str(seed())])
             if sim.violated:
@@ -94,9 +106,15 @@ def network_stage(v, w, thorough, replay):
         e = events[x["line"] - 1]
         if x["clause"] == "Malformed":
             raise ToolError("malformed network trace line %d" % x["line"])
+        if not x["clause"].startswith(prefix):
+            # a clause of another property (judged by that property's own check)
+            v.cov.setdefault("clauses_of_other_properties", []).append({"clause": x["clause"], "line": x["line"]})
+            continue
         v.violation(x["clause"], "network step %s at line %d: %s" % (e["ev"], x["line"], json.dumps({k: e[k] for k in e if k not in ("ev", "state")})[:500]),
                     {"area": "network", "scenario": scn_list[run_of[x["line"] - 1] - 1], "event": {k: e[k] for k in e if k != "state"}})
     for x in rep.get("known", []):
+        if not x["clause"].startswith(prefix):
+            continue
         kf = kfs.get(x["kf"])
         if kf is None:
             v.violation(x["clause"], "matched finding %s is not listed as known" % x["kf"], {"area": "network", "scenario": scn_list[run_of[x["line"] - 1] - 1]})
